@@ -64,7 +64,7 @@ class Gen:
         if x < 0.95:
             return ['date', r.randint(1, 9999), r.randint(1, 12), r.randint(1, 28)]
         return ['datetime', r.randint(1, 9999), r.randint(1, 12), r.randint(1, 28), r.randint(0, 23), r.randint(0, 59),
-                r.randint(0, 59), r.choice([0, 0, 1, 500000, 123456]), r.choice([None, None, 0, 60, -330])]
+                r.randint(0, 59), r.choice([0, 0, 1, 500000, 123456, r.randrange(1000000), r.randrange(1000000)]), r.choice([None, None, 0, 60, -330])]
 
     def key(self):
         r = self.r
